@@ -1675,6 +1675,16 @@ const char* parse_identifier(const char* src, rtosc_arg_val_t *arg,
     return src;
 }
 
+//! Returns whether the value scanned at @p av can be the "a" of a following
+//! range "a b ... c": the last element of an array (or of a repeated
+//! array) is not the left neighbour of the value behind the array
+static int can_precede_range(const rtosc_arg_val_t* av)
+{
+    return !(av->type == 'a' ||
+             (av->type == '-' && !rtosc_av_rep_has_delta(av) &&
+              av[1].type == 'a'));
+}
+
 size_t rtosc_scan_arg_val(const char* src,
                           rtosc_arg_val_t *arg, size_t nargs,
                           char* buffer_for_strings, size_t* bufsize,
@@ -1805,12 +1815,15 @@ size_t rtosc_scan_arg_val(const char* src,
             size_t last_bufsize;
 
             char arrtype = ' ';
+            int prev_ok = 1;
             for(size_t i = 0; src && *src && *src != ']'; ++i)
             {
                 last_bufsize = *bufsize;
 
                 src += rtosc_scan_arg_val(src, arg, nargs,
-                                          buffer_for_strings, bufsize, i, 1);
+                                          buffer_for_strings, bufsize,
+                                          prev_ok ? i : 0, 1);
+                prev_ok = can_precede_range(arg);
                 arrtype = arg->type;
                 if(arrtype == '-')
                     arrtype = rtosc_av_rep_has_delta(arg) ? arg[2].type : arg[1].type;
@@ -2117,12 +2130,15 @@ size_t rtosc_scan_arg_vals(const char* src,
             rd += skip_fmt(&src, "%*[^\n]%n");
     } while(isspace(*src));
 
+    int prev_ok = 1;
     for(size_t i = 0; i < n; )
     {
         last_bufsize = bufsize;
 
         size_t tmp = rtosc_scan_arg_val(src, args, n-i,
-                                        buffer_for_strings, &bufsize, i, 1);
+                                        buffer_for_strings, &bufsize,
+                                        prev_ok ? i : 0, 1);
+        prev_ok = can_precede_range(args);
         src += tmp;
         rd += tmp;
         size_t length = next_arg_offset(args);
